@@ -107,8 +107,10 @@ def extract(repo=None, tier="quick", force=False):
         # a thorough extraction also serves quick
         alt = os.path.join(WORK, "facts", key + "-t")
         if tier == "quick" and os.path.exists(os.path.join(alt, "DONE")) and not force:
+            os.utime(alt, None)       # in use: keeps it away from the collector
             return alt
         if os.path.exists(os.path.join(fdir, "DONE")) and not force:
+            os.utime(fdir, None)
             return fdir
         shutil.rmtree(fdir, ignore_errors=True)
         os.makedirs(fdir)
@@ -134,12 +136,16 @@ def extract(repo=None, tier="quick", force=False):
     return fdir
 
 
-def _gc_facts(keep, max_dirs=6):
+def _gc_facts(keep, max_dirs=48, min_age_s=3 * 3600):
+    """Remove old facts directories.  Checks may run in parallel (several thorough-tier self-tests each extract
+    scratch copies): a directory is only removed when it has not been used for `min_age_s` — never merely because
+    newer ones exist — so a concurrent run cannot lose the facts it is reading."""
     base = os.path.join(WORK, "facts")
+    now = time.time()
     ds = [os.path.join(base, d) for d in os.listdir(base)]
     ds = [d for d in ds if os.path.isdir(d) and d != keep]
     ds.sort(key=lambda d: os.path.getmtime(d))
-    while len(ds) >= max_dirs:
+    while len(ds) >= max_dirs and ds and now - os.path.getmtime(ds[0]) > min_age_s:
         shutil.rmtree(ds.pop(0), ignore_errors=True)
 
 
